@@ -1615,12 +1615,13 @@ fn gen_all(tier: &str, seed: u64, w: &mut dyn Write) {
             sweeps.push(("ddnet", 0b1001, 32));
             sweeps.push(("none", 0b1111, 4));
             sweeps.push(("ddnet", 0b1111, 4));
+            sweeps.push(("none", 0b1111, 7)); // 2401² = 5.76 M pairs
         }
         for (name, mask, radix) in sweeps {
             let nk = (mask as u32).count_ones();
             let total = radix.pow(nk);
             let pairs = total * total;
-            let chunk = 3000;
+            let chunk = if pairs > 2_000_000 { 20000 } else { 3000 };
             let mut lo = 0;
             while lo < pairs {
                 let hi = (lo + chunk).min(pairs);
